@@ -72,10 +72,12 @@ pub fn add_element(m: &mut Model, c: &Cfg, name: &str, k: usize) {
     let nt = [None, Some(uid("SI")), Some(uid("SO")), Some(uid("missing-next"))][c.next];
     let cons = [uid("wc"), uid("missing-cons")][c.cons];
     let az = [0.0f32, 90.0, 180.0, -90.0, 45.0][k % 5];
+    // the outline of the element: rectangle, parallelogram, or a rectangle written closed away from the origin (all 12 m2)
+    let sh = c.space + c.ovr + c.win + c.mult + k;
     let g = match c.tilt {
-        0 => geom(0.0, 0.0, Some([0.0, k as f32 * 10.0, 3.0]), rect(4.0, 3.0)),
-        1 => geom(90.0, az, Some([20.0 + k as f32 * 10.0, 0.0, 0.0]), rect(4.0, 3.0)),
-        _ => geom(180.0, 0.0, Some([40.0, 3.0 + k as f32 * 10.0, 0.0]), rect(4.0, 3.0)),
+        0 => geom(0.0, 0.0, Some([0.0, k as f32 * 10.0, 3.0]), shaped(4.0, 3.0, sh)),
+        1 => geom(90.0, az, Some([20.0 + k as f32 * 10.0, 0.0, 0.0]), shaped(4.0, 3.0, sh)),
+        _ => geom(180.0, 0.0, Some([40.0, 3.0 + k as f32 * 10.0, 0.0]), shaped(4.0, 3.0, sh)),
     };
     let w = wall(name, BOUNDS[c.bounds], cons, sp, nt, g);
     if c.ovr == 1 {
@@ -574,11 +576,11 @@ fn agg_model(specs: &[usize]) -> Model {
         let sid = s.id;
         m.spaces.push(s);
         let x0 = i as f32 * 10.0;
-        m.walls.push(wall(&format!("{name}_F1"), BoundaryType::GROUND, wc, sid, None, geom(180.0, 0.0, Some([x0, 4.0, 0.0]), rect(5.0, 4.0))));
+        m.walls.push(wall(&format!("{name}_F1"), BoundaryType::GROUND, wc, sid, None, geom(180.0, 0.0, Some([x0, 4.0, 0.0]), shaped(5.0, 4.0, i + sp / 3))));
         if floors == 1 {
             m.walls.push(wall(&format!("{name}_F2"), BoundaryType::EXTERIOR, wc, sid, None, geom(180.0, 0.0, Some([x0 + 5.0, 4.0, 0.0]), rect(2.0, 4.0))));
         }
-        m.walls.push(wall(&format!("{name}_S"), BoundaryType::EXTERIOR, wc, sid, None, geom(90.0, 0.0, Some([x0, 0.0, 0.0]), rect(5.0, 3.0))));
+        m.walls.push(wall(&format!("{name}_S"), BoundaryType::EXTERIOR, wc, sid, None, geom(90.0, 0.0, Some([x0, 0.0, 0.0]), shaped(5.0, 3.0, i + sp / 6 + 1))));
         match ceil {
             0 => {}
             1 => m.walls.push(wall(&format!("{name}_R"), BoundaryType::EXTERIOR, uid("slab"), sid, None, geom(0.0, 0.0, Some([x0, 0.0, 3.0]), rect(5.0, 4.0)))),
